@@ -108,11 +108,29 @@ Explain(c, A, at) ==
   ELSE LET g == Greedy(c, A, {}, at) IN
        IF g # {} THEN Minim(c, g) ELSE Exhaust(c, A, 3, 3)
 
+\* Differential conditions.  Recorder ids are creation-order numbers: they line up between the two
+\* runs iff the events occur in the same order.  Where the machine tolerates two placements of an
+\* event (sole starred argument, f-string conversion) the orders may legitimately differ: then the
+\* heaps are compared as multisets and the bindings by shape.
+EvKinds(tr) == [j \in 1..Len(tr) |-> <<tr[j].e, tr[j].op, tr[j].n>>]
+SameBag(a, b) == Len(a) = Len(b) /\ \A j \in 1..Len(a) :
+                   Cardinality({m \in 1..Len(a) : a[m] = a[j]}) = Cardinality({m \in 1..Len(b) : b[m] = a[j]})
+RECURSIVE Shape(_)
+Shape(v) == CASE v.k = "v" -> [k |-> "v", b |-> v.b]
+              [] v.k = "seq" -> [k |-> "seq", t |-> v.t, e |-> IF v.t = "set" THEN <<>> ELSE [j \in 1..Len(v.e) |-> Shape(v.e[j])], n |-> Len(v.e)]
+              [] v.k = "dict" -> [k |-> "dict", ks |-> [j \in 1..Len(v.ks) |-> Shape(v.ks[j])], vs |-> [j \in 1..Len(v.vs) |-> Shape(v.vs[j])]]
+              [] v.k = "slice" -> [k |-> "slice", e |-> [j \in 1..Len(v.e) |-> Shape(v.e[j])]]
+              [] OTHER -> v
 Differ(c) ==
   IF c.pys.exc # c.cpy.exc THEN "exception type differs from CPython: '" \o c.pys.exc \o "' vs '" \o c.cpy.exc \o "'"
-  ELSE IF c.pys.final # c.cpy.final THEN "final bindings differ from CPython"
-  ELSE IF c.pys.heap # c.cpy.heap THEN "final values of recorder objects differ from CPython"
-  ELSE ""
+  ELSE IF EvKinds(c.pys.trace) = EvKinds(c.cpy.trace) THEN
+       IF c.pys.final # c.cpy.final THEN "final bindings differ from CPython"
+       ELSE IF c.pys.heap # c.cpy.heap THEN "final values of recorder objects differ from CPython"
+       ELSE ""
+  ELSE IF DOMAIN c.pys.final # DOMAIN c.cpy.final \/ \E m \in DOMAIN c.pys.final : Shape(c.pys.final[m]) # Shape(c.cpy.final[m])
+       THEN "final bindings differ from CPython"
+  ELSE IF c.pys.exc = "" /\ ~SameBag(c.pys.heap, c.cpy.heap) THEN "final values of recorder objects differ from CPython"
+  ELSE ""       \* (an exception can cut off a tolerated, differently placed iteration: heaps not comparable)
 
 Line(c, who, flags, v) == PrintT("REJECT " \o ToJson([id |-> c.id, who |-> who, flags |-> flags, kind |-> v.kind,
                                                       why |-> v.why, at |-> v.at, nm |-> v.nm]))
